@@ -8,6 +8,7 @@ import (
 	"path/filepath"
 	"sort"
 	"strconv"
+	"syscall"
 	"testing"
 	"time"
 )
@@ -94,6 +95,22 @@ type WorkerOut struct {
 	RunHashes    map[string]string `json:"run_hashes"` // seed -> log hash (determinism self-test)
 	WallS        float64           `json:"wall_s"`
 	Errors       []string          `json:"errors"`
+	Restarts     int               `json:"restarts"` // times the worker replaced its own process image to give memory back
+	NextRun      int               `json:"next_run"`
+}
+
+// residentBytes is the process's resident set size (the Go heap and what cgo libraries hold), 0 if it cannot be read.
+func residentBytes() uint64 {
+	bz, err := os.ReadFile("/proc/self/statm")
+	if err != nil {
+		return 0
+	}
+	f := strings.Fields(string(bz))
+	if len(f) < 2 {
+		return 0
+	}
+	pages, _ := strconv.ParseUint(f[1], 10, 64)
+	return pages * uint64(os.Getpagesize())
 }
 
 func envInt(k string, def int64) int64 {
@@ -199,13 +216,59 @@ func explore(t *testing.T, eng Engine, scratch, out string) {
 	cover := map[string]bool{}
 	nt := map[string]bool{}
 	start := time.Now()
+	k0 := 0
+	// Memory: every run builds whole applications, and some of what a finished run leaves behind (goroutines of a daemon that is
+	// parked for good, caches of the wasm VM) is never given back. Long batches would grow until the kernel kills the process, so
+	// a worker that has grown past the limit writes its totals, replaces its own process image (exec of the same binary, same
+	// pid, same output files) and continues its seed sequence where it stopped. Which seeds are run does not change.
+	memLimit := uint64(envInt("VERIF_MEM_LIMIT_MB", 2500)) << 20
+	if os.Getenv("VERIF_RESUME") == "1" {
+		if bz, err := os.ReadFile(out); err == nil {
+			var prev WorkerOut
+			if json.Unmarshal(bz, &prev) == nil && prev.Property == prop && prev.Worker == worker {
+				wo = &prev
+				if wo.Faults == nil {
+					wo.Faults = map[string]int64{}
+				}
+				if wo.Probes == nil {
+					wo.Probes = map[string]int64{}
+				}
+				if wo.Known == nil {
+					wo.Known = map[string]int{}
+				}
+				if wo.RunHashes == nil {
+					wo.RunHashes = map[string]string{}
+				}
+				for _, c := range wo.Cover {
+					cover[c] = true
+				}
+				for _, h := range wo.NTHashes {
+					nt[h] = true
+				}
+				k0 = wo.NextRun
+				start = time.Now().Add(-time.Duration(wo.WallS * float64(time.Second)))
+			}
+		}
+	}
 	flush := func() {
 		wo.WallS = time.Since(start).Seconds()
 		wo.Cover = SortedKeys(cover)
 		wo.NTHashes = SortedKeys(nt)
 		writeJSON(out, wo)
 	}
-	for k := 0; k < maxRuns && time.Since(start) < budget; k++ {
+	for k := k0; k < maxRuns && time.Since(start) < budget; k++ {
+		if k > k0 && k%16 == 0 && !recordHashes {
+			if residentBytes() > memLimit {
+				wo.Restarts++
+				wo.NextRun = k
+				flush()
+				env := append(os.Environ(), "VERIF_RESUME=1")
+				if err := syscall.Exec("/proc/self/exe", os.Args, env); err != nil {
+					wo.Errors = append(wo.Errors, "re-exec failed: "+err.Error())
+					break
+				}
+			}
+		}
 		seed := Mix(base, prop, strconv.Itoa(worker), strconv.Itoa(k))
 		if recordHashes {
 			seed = Mix(base, prop, "det", strconv.Itoa(k)) // same seeds in every worker: determinism self-test
